@@ -206,6 +206,12 @@ class Scheduler(object):
                 raise SchedAbort(self.aborted)
         return True
 
+    def join_state(self, st):
+        """block the calling participating thread until st is done"""
+        self.yield_point('join')
+        while st.status != 'done':
+            self.block(('join', st))
+
     def wake(self, pred):
         with self.cv:
             for s in self.states:
@@ -362,8 +368,8 @@ def install_thread_hooks(world, sched, C):
         def start(self):
             self._st = sched.register('net%d' % len(
                 [s for s in sched.states if s.name.startswith('net')]), self)
+            Base.start(self)          # it waits for the baton in run()
             sched.yield_point('thread-start')
-            Base.start(self)
 
         def run(self):
             exc = None
